@@ -28,6 +28,7 @@ RULE = ('count tables 1..5 x 1..5 (values 1,2,3,5,8,13,40,1000,2^31+7,2^40+1; wh
         'n chosen equal to a vector total in ~40% of the cases, else 1..max total+1; in ~30% of the tables observation and sample ids overlap, fully or partially) x layout recipe (dense/csr/csc/coo/lists/'
         'csr with explicit zeros/csr with reversed indices, then sort_order round trips, transposes, column/row access, nnz, copy) '
         'x axis x {counts without replacement, with replacement, by id, refused arguments} x call form {keywords, positional in the documented order n/axis/by_id/with_replacement/seed, biom.util.generate_subsamples} x seed (recording Generator; the same '
+        'call is repeated with the plain seed and must give the same table; a fixed sweep of 96 cases per run uses the seeds 0, numpy 0, 1, 2^32-1, 2^63-1 in every mode x axis x call form; the same '
         'call is repeated with the plain integer seed and must give the same table); the arrays the kernel received are replayed '
         'through the array-level model and, on the unchanged tree, through the interpreted .pyx; thorough adds every 2x2 and 2x3 '
         'matrix over {0,1,2,3} x both axes x n in 1..4 and the statistical test (20000 seeds, chi-square against the exact '
@@ -109,6 +110,11 @@ def _ints(a):
     return [int(x) for x in a]
 
 
+def _seed_value(c):
+    """the seed as the user passes it: a python int, or (seedtype 'np_int64') a numpy integer"""
+    return np.int64(c['seed']) if c.get('seedtype') == 'np_int64' else c['seed']
+
+
 def _call(t, c, seed):
     """the call forms a user has: keywords; positionally in the documented order
     (n, axis, by_id, with_replacement, seed); the library's own wrapper biom.util.generate_subsamples,
@@ -142,7 +148,7 @@ def _run_impl(c):
     if c['kind'] == 'stat':
         return _run_stat(c)
     t = T.build(c['spec'])
-    rec = Rec(c['seed'])
+    rec = Rec(_seed_value(c))
     seen = {}
     real = bt.subsample
 
@@ -171,7 +177,7 @@ def _run_impl(c):
            'stored_zeros': stored_zeros, 'kernel': None}
     # the same seed as a plain integer gives the same table
     try:
-        r2 = _call(T.build(c['spec']), c, c['seed'])
+        r2 = _call(T.build(c['spec']), c, _seed_value(c))
         res2 = ['ok', T.norm_snap(T.snapshot(r2))]
     except Exception as e:
         res2 = ['err', T.err_code(e)]
@@ -520,8 +526,32 @@ def exhaustive_small():
                     yield {'kind': 'counts', 'spec': spec, 'axis': axis, 'n': n, 'by_id': False, 'wr': False, 'seed': 1000 + k * 7 + n}
 
 
+SEED_TABLE = [[40.0, 13.0, 8.0, 5.0, 0.0, 21.0], [21.0, 40.0, 13.0, 8.0, 5.0, 0.0], [0.0, 21.0, 40.0, 13.0, 8.0, 5.0],
+              [5.0, 0.0, 21.0, 40.0, 13.0, 8.0], [8.0, 5.0, 0.0, 21.0, 40.0, 13.0], [13.0, 8.0, 5.0, 0.0, 21.0, 40.0]]
+BOUNDARY_SEEDS = [(0, 'int'), (0, 'np_int64'), (1, 'int'), (2 ** 32 - 1, 'int'), (2 ** 63 - 1, 'int'), (2 ** 63 - 1, 'np_int64')]
+
+
+def seed_sweep():
+    """same seed -> same result, systematically: falsy-looking and boundary seeds (0, numpy 0, 1,
+    2^32-1, 2^63-1) x every mode x both axes x every call form, on a 6 x 6 table with enough counts
+    that two unrelated draws practically never coincide; each case repeats the call with the plain
+    seed and compares (observable same_seed)"""
+    spec = {'oids': ['o%d' % i for i in range(6)], 'sids': ['s%d' % i for i in range(6)], 'mat': SEED_TABLE,
+            'omd': None, 'smd': None, 'type': None, 'layout': ['dense']}
+    for seed, st in BOUNDARY_SEEDS:
+        for kind, n in (('counts', 30), ('replace', 30), ('by_id', 3)):
+            for axis in ('observation', 'sample'):
+                for call in ('keyword', 'positional', 'generate'):
+                    if call == 'generate' and kind == 'replace':
+                        continue
+                    yield {'kind': kind, 'spec': spec, 'axis': axis, 'n': n, 'by_id': kind == 'by_id', 'wr': kind == 'replace',
+                           'seed': seed, 'seedtype': st, 'call': call}
+
+
 def gen(rng, tier):
     n = 700 if tier == 'quick' else 7000
+    for c in seed_sweep():
+        yield c
     for _ in range(n):
         yield gen_case(rng)
     if tier == 'thorough':
@@ -553,7 +583,7 @@ def classify(c):
         return ['kind:stat']
     M = _mat(c['spec'])
     totals = M.sum(axis=1) if c['axis'] == 'observation' else M.sum(axis=0)
-    tags = ['kind:' + c['kind'], 'call:' + c.get('call', 'keyword'), 'axis:' + c['axis'], 'layout0:' + str(c['spec']['layout'][0] if c['spec']['layout'] else 'dense'),
+    tags = ['kind:' + c['kind'], 'call:' + c.get('call', 'keyword')] + (['boundary-seed:%s/%s' % (c['seed'], c['seedtype'])] if 'seedtype' in c else []) + [ 'axis:' + c['axis'], 'layout0:' + str(c['spec']['layout'][0] if c['spec']['layout'] else 'dense'),
             'shape:%dx%d' % M.shape]
     try:
         tags.append('repr:' + T.layout_info(T.build(c['spec'])))
@@ -610,7 +640,7 @@ def shrink(c):
                 yield dict(c, spec=dict(s, mat=m2))
     if c['n'] > 1:
         yield dict(c, n=c['n'] - 1)
-    if c['seed'] > 3:
+    if c['seed'] > 3 and 'seedtype' not in c:
         yield dict(c, seed=c['seed'] % 3)
 
 
